@@ -6,12 +6,6 @@ namespace Quote
 
 /-! ### Facts about the regenerated table `Params.shlexSafe` (re-checked whenever it changes) -/
 
-/-- bytes that a POSIX shell reads literally when unquoted, wherever they stand in a word:
-    ASCII letters, digits and `% + , - . / : = @ _` (hand-written, independent of the table) -/
-def posixPlain (n : Nat) : Bool :=
-  (48 ≤ n && n ≤ 57) || (65 ≤ n && n ≤ 90) || (97 ≤ n && n ≤ 122) ||
-  n == 37 || n == 43 || n == 44 || n == 45 || n == 46 || n == 47 || n == 58 || n == 61 || n == 64 || n == 95
-
 /-- TABLE FACT: every byte `shlex.quote` leaves unquoted — hence every byte the splitter accepts
     outside quotes — is one a POSIX shell reads literally. -/
 theorem shlexSafe_plain : Params.shlexSafe.all posixPlain = true := by decide
